@@ -341,6 +341,60 @@ def gen_oracle_case(rng, nops):
     return {"text": lib["text"], "ops": ops, "graph": False}
 
 
+def gen_const_edit_case(rng):
+    """remove_symbol / add_symbol of a package constant after flatten / sympy / xml generate of models that reference
+    it by dotted name, on either tree; then flatten of the users in both trees"""
+    c, d = rng.randint(2, 9), rng.randint(2, 9)
+    text = ("package P\n  constant Real c = %d.0;\n  constant Real d = %d.5;\n  model X\n    Real y;\n  equation\n    y = 1.0;\n  end X;\nend P;\n"
+            "package W\n  import P.*;\n  model M\n    X x;\n    Real m;\n  equation\n    m = P.c;\n  end M;\n"
+            "  model N\n    Real n;\n  equation\n    n = P.c + P.d;\n  end N;\nend W;\n" % (c, d))
+    ops = [["copy", 0]]
+    a = rng.randrange(2)
+    b = 1 - a
+    users = [["W", "M"], ["W", "N"]]
+    for _ in range(rng.randint(1, 2)):
+        ops.append([rng.choice(["sympy", "xml", "flatten", "sympy", "xml"]), a, rng.choice(users)])
+    if rng.random() < 0.4:
+        ops.append([rng.choice(["sympy", "xml"]), b, rng.choice(users)])
+    victim = rng.choice(["c", "d"])
+    ops.append(["rmsym", a, ["P"], victim])
+    ops.append(["flatten", a, rng.choice(users)])
+    ops.append(["flatten", b, rng.choice(users)])
+    ops.append(["addsym", rng.choice([a, b]), ["P"], 700 + rng.randrange(50)])
+    if rng.random() < 0.5:
+        ops.append(["copy", rng.choice([a, b])])
+        ops.append(["rmsym", 2, ["P"], "d" if victim == "c" else "c"])
+        ops.append(["flatten", 2, ["W", "N"]])
+    ops.append(["flatten", a, ["W", "N"]])
+    ops.append(["flatten", b, ["W", "N"]])
+    return {"text": text, "ops": ops, "graph": False, "src": "const-edit"}
+
+
+def gen_qimport_case(rng):
+    """a QUALIFIED import on an enclosing package; the imported class is removed, a class using the import is
+    flattened while it is missing, a class of that name is added again (copied from the other tree), flatten again"""
+    v = rng.randint(2, 9)
+    text = ("package P\n  model X\n    Real y;\n  equation\n    y = %d.0;\n  end X;\n  model X2\n    Real y2;\n  equation\n    y2 = 2.0;\n  end X2;\nend P;\n"
+            "package W\n  import P.X;\n  model M\n    X x;\n    Real m;\n  equation\n    m = 2.0;\n  end M;\n"
+            "  package V\n    model M2\n      X x2;\n    end M2;\n  end V;\nend W;\n" % v)
+    a = rng.randrange(2)
+    b = 1 - a
+    users = [["W", "M"], ["W", "V", "M2"]]
+    ops = [["copy", 0]]
+    if rng.random() < 0.5:
+        ops.append(["flatten", a, rng.choice(users)])
+    ops.append(["rmclass", a, ["P"], "X"])
+    ops.append([rng.choice(["flatten", "flatten", "sympy"]), a, rng.choice(users)])
+    ops.append(["flatten", b, rng.choice(users)])
+    ops.append(["transplant", a, ["P"], b, ["P", "X"], rng.choice(["fc", "dc"])])
+    ops.append(["flatten", a, rng.choice(users)])
+    ops.append(["flatten", b, rng.choice(users)])
+    if rng.random() < 0.5:
+        ops.append(["copy", a])
+        ops.append(["flatten", 2, rng.choice(users)])
+    return {"text": text, "ops": ops, "graph": False, "src": "qualified-import"}
+
+
 def gen_graph_case(rng, nops):
     lib = gen_library(rng, small=True)
     shadows = [Shadow(lib)]
@@ -381,31 +435,53 @@ def gen_graph_case(rng, nops):
 # ---------------------------------------------------------------------------------------------
 # judge: the property on the implementation, against the independently rebuilt tree
 # ---------------------------------------------------------------------------------------------
-def judge(case, out):
+def judge2(case, out):
+    """-> (None, None) or (description, tag).  tag = 'constant-renamed-in-place' only for: remove_symbol raising
+    KeyError with a dotted key on a tree on which (or on whose copy source) a plain flatten ran before"""
     if "res" not in out:
-        return "history could not be run: %s" % json.dumps(out)[:300]
+        return "history could not be run: %s" % json.dumps(out)[:300], "harness"
+    tainted = set()
     for i, (op, r) in enumerate(zip(case["ops"], out["res"])):
+        if op[0] == "flatten":
+            tainted.add(op[1])
+        if op[0] == "copy" and op[1] in tainted:
+            tainted.add(_new_tree_index(case["ops"], i))
         if "op_exc" in r:
-            return "op %d %s raised %s %s" % (i, op, r["op_exc"], r.get("msg", ""))
+            tag = "op-raised"
+            if op[0] == "rmsym" and r["op_exc"] == "KeyError" and "." in r.get("msg", "") and op[1] in tainted:
+                tag = "constant-renamed-in-place"
+            return "op %d %s raised %s %s" % (i, op, r["op_exc"], r.get("msg", "")), tag
         if op[0] in ("copy", "fc"):
             if not r["equal"]:
-                return "op %d %s: the copy's content differs from its source" % (i, op)
+                return "op %d %s: the copy's content differs from its source" % (i, op), "copy"
             if r["shared"]:
                 return ("op %d %s: %d mutable object(s) reachable from both the copy and the original (%s)"
-                        % (i, op, r["shared"], ",".join(r["shared_types"])))
+                        % (i, op, r["shared"], ",".join(r["shared_types"]))), "copy"
             if op[0] == "copy" and not r["type_ok"]:
-                return "op %d %s: copy has a different type" % (i, op)
+                return "op %d %s: copy has a different type" % (i, op), "copy"
             if op[0] == "fc" and not (r["parent_is_original"] and r["fresh"]):
-                return "op %d %s: find_class(copy=True) did not return a fresh class under the original parent" % (i, op)
+                return "op %d %s: find_class(copy=True) did not return a fresh class under the original parent" % (i, op), "copy"
         elif op[0] == "transplant":
             if not r.get("source_unchanged", True):
                 return ("op %d %s: add_class of a class copied out of tree %d changed tree %d itself"
-                        % (i, op, op[3], op[3]))
+                        % (i, op, op[3], op[3])), "transplant"
         elif op[0] in ("flatten", "sympy", "xml"):
+            if op[0] != "flatten" and not r.get("tree_unchanged", True):
+                return ("op %d %s generate of %s changed the caller's tree %d (the backends work on a deep copy)"
+                        % (i, op[0], ".".join(op[2]), op[1])), "generate-writes"
             if r["got"][:2] != r["want"][:2]:
                 return ("op %d %s of %s in tree %d gives %s; a fresh parse with this tree's own edits gives %s"
-                        % (i, op[0], ".".join(op[2]), op[1], r["got"], r["want"]))
-    return None
+                        % (i, op[0], ".".join(op[2]), op[1], r["got"], r["want"])), "flatten-differs"
+    return None, None
+
+
+def _new_tree_index(ops, i):
+    """index of the tree created by the copy/fc op at position i"""
+    return 1 + sum(1 for o in ops[:i] if o[0] in ("copy", "fc"))
+
+
+def judge(case, out):
+    return judge2(case, out)[0]
 
 
 # ---------------------------------------------------------------------------------------------
@@ -565,15 +641,17 @@ def run(ctx):
     ctx.notes["source_fingerprint"] = {"ast.py:Class.__deepcopy__+ClassModificationArgument.__deepcopy__": fp}
     sg, sh, why = source_flags(src)
 
-    n_graph = ctx.scaled(80, 1000)
-    n_oracle = ctx.scaled(40, 450)
+    n_graph = ctx.scaled(70, 1000)
+    n_oracle = ctx.scaled(32, 450)
     graph_cases = [gen_graph_case(ctx.rng, ctx.rng.randint(2, 7)) for _ in range(n_graph)]
     oracle_cases = [gen_oracle_case(ctx.rng, ctx.rng.randint(6, ctx.scaled(16, 24))) for _ in range(n_oracle)]
     try:
         corpus = json.load(open(core.VERIF + "/corpus/C06/cases.json"))
     except OSError:
         corpus = []
-    cases = corpus + graph_cases + oracle_cases
+    special = [gen_const_edit_case(ctx.rng) for _ in range(ctx.scaled(6, 60))] + \
+              [gen_qimport_case(ctx.rng) for _ in range(ctx.scaled(5, 40))]
+    cases = corpus + graph_cases + oracle_cases + special
     # 4 children in parallel (the histories are independent)
     from concurrent.futures import ThreadPoolExecutor
     k = 4
@@ -592,9 +670,9 @@ def run(ctx):
     for c, o in zip(cases, outs):
         for op in c["ops"]:
             opcount[op[0]] = opcount.get(op[0], 0) + 1
-        why_bad = judge(c, o)
+        why_bad, tag = judge2(c, o)
         if why_bad:
-            core.violation(ctx, "impl-violation", {"case": c, "why": why_bad})
+            core.report(ctx, tag, why_bad, {"case": c, "why": why_bad})
         if "res" in o:
             for op, r in zip(c["ops"], o["res"]):
                 if op[0] == "flatten" and "got" in r:
@@ -636,7 +714,13 @@ def run(ctx):
         core.violation(ctx, "correspondence-broken",
                        {"correspondence": "Model/C06_deepcopy.v check_case vs object graph", "case": first,
                         "observed": outs[gidx[bad[0]]] if bad else None}, no_input=True)
-    core.replay_known(ctx, lambda e: None)
+    def still_fails(e):
+        case = (e.get("replay") or {}).get("case")
+        if not case:
+            return None
+        o = core.run_child(ctx, "c06", [case])[0]
+        return judge2(case, o)[1] == e.get("tag")
+    core.replay_known(ctx, still_fails)
 
     ctx.cov["evaluations"] = len(cases)
     ctx.cov["distinct_nontrivial"] = len(nontrivial)
